@@ -29,6 +29,49 @@ Extension (same namespace, sections below), all for every run length and ANY ora
         precision_slack_needed (the slack cannot be dropped), evalGap_guarantees, evalGap_saddle_point,
         loop_certificate, loop_guarantees, loop_guarantees_end_to_end (the two guarantees for the OUTPUT of the loop),
         best_h_store, best_h_returned (cache), project_raises_L (the project_lambda step of _eval)
+
+CLAUSE → THEOREM TABLE (review R2; property text of properties.jsonl, clause by clause)
+  0 premise "exact cost-sensitive learner over a finite hypothesis class; constrained problem feasible"
+        the class is a `Table` (any finite size); exactness = hypothesis `hbest` (gap_ge_true_gap) / `hexact`
+        (evalGap_*, loop_guarantees*: ONE call, the one at mul = 1 of the certifying eval_gap); feasibility = the
+        universally quantified `Feasible TC Q'` (no feasible Q' ⇒ min over the empty set, nothing to prove)
+  1 "the fitted randomised classifier Q (weights_ over predictors_, a probability vector)"
+        loop_QEG_prob (EG iterates, unconditional), loop_Q_prob / loop_weights_prob / loop_weights_padded_prob
+        (conditional on every LP answer being a probability vector = primal feasibility, lp_feasible_iff_distribution;
+        scipy.linprog is trusted for that and re-checked per call by the harness)
+  2 "g = best_gap_ is at least the true duality gap of Q against the multiplier recorded for the returned iteration"
+        gap_ge_true_gap (no-cache reading), evalGap_gap_le_classGap (reported ≤ true, any oracle),
+        classGap_le_evalGap_gap (true ≤ reported + _PRECISION, exact call at mul = 1), loop_certificate.
+        AS WRITTEN THE CLAUSE IS FALSE OF THE CODE by up to _PRECISION = 1e-8: precision_slack_needed (witness: the
+        `best_h` cache returns a stored classifier when the oracle's answer improves by less than _PRECISION).
+        Every downstream bound therefore carries `+ _PRECISION`; the harness compares with tolerance ≥ _PRECISION.
+  3 "hence error(Q) <= min{error(Q') : Q' feasible} + 2 g"
+        saddle_error (from a true-gap bound), evalGap_guarantees / loop_guarantees / loop_guarantees_end_to_end /
+        loop_guarantees_explicit (for the OUTPUT of the loop: `+ 2 g + _PRECISION`)
+  4 "every constraint value gamma_j(Q) exceeds its bound by at most (1 + 2 g)/B"
+        saddle_violation (+ errQ_unit_interval for its two side conditions), same loop theorems (`(1 + 2 g + _PRECISION)/B`)
+  5 "for every parity moment with difference or ratio bounds"
+        the moment enters only through the table (gamma columns, bounds) and the flag `ratioOne` (project_lambda is the
+        identity unless ratio = 1: `projectIf`); `AntiSym` is REQUIRED only when ratioOne (project_preserves_best_response,
+        project_raises_L); C08X.momentTable instantiates the table with the C06 moments
+  6 "with or without the linear-programming step and for every iteration budget"
+        `Params.runLP`, `Params.maxIter` are universally quantified in every loop_* theorem
+  7 "whenever fitting stops before max_iter iterations, best_gap_ is below nu"
+        early_stop_lt_nu (selection model), loop_early_stop (the modelled loop itself), best_iter_spec
+  review additions: loop_guarantees_explicit (the certifying call is NAMED, so its exactness hypothesis can be checked),
+  `r2_*` = a non-trivial input meeting ALL hypotheses of the loop guarantees at once (2 stored classifiers, mixed weights_).
+
+TOTALISATION NOTES (review R2)
+  * `gaps.getD b 0`, `qs.getD b []`, `certs.getD b default`: always under `bestIterOf … = some b`, which gives
+    `b < gaps.length = qs.length = certs.length` (bestIter_spec, Inv.len_qs, CertInv.gaps_eq).
+  * `meanCols` divides by the number of columns (≥ 1: the current multiplier is appended first); `normalise` divides by
+    `Qsum.sum()` ≥ 1 after `bump`; `lamOf` divides by `1 + Σ e(θ)` > 0 under `LoopHyp.e_pos` — all covered by `Inv`.
+  * `X.c.length / 2` (Nat division) is only used when `ratioOne`; `AntiSym` then demands `c.length = 2·(c.length/2)`,
+    the driver refuses odd lengths (`bad-op`).
+  * the driver's exp table lookup defaults to 0 (NOT positive): the op answers `stuck exp-table` instead of a value
+    whenever a θ outside the supplied table is needed, so `LoopHyp.e_pos` is never silently violated.
+  * `saddle_violation` divides by B: guarded by `0 < B`;  `EGGen.boundB eps = 1/eps`: `eg_slack_with_code_B` asks `0 < eps`
+    (eps = 0 makes fairlearn raise ZeroDivisionError in `fit`: outside the quantifier).
 -/
 import FairModel.Lemmas.Saddle
 import FairModel.Lemmas.EGLoop
@@ -846,6 +889,46 @@ theorem loop_guarantees_end_to_end {P : Params} (O : Oracles) (TC : Table) (h : 
   exact evalGap_guarantees P.ctx O.h TC hc hcc ha _ h3 _ _ _ (hO _) hexact h.B_pos
     (fun j _ => projLam_nonneg P.ctx _ h4 j) Q' hf
 
+/-- NEW (R2) **the same, with the certifying call NAMED**: in `loop_guarantees(_end_to_end)` the certificate `c` is
+    existentially quantified, so the exactness hypothesis talks about a call the reader cannot identify.  Here
+    `c = certs[b]` — the record the state machine keeps of which `eval_gap` call produced `gaps[b]` — is explicit: its
+    store `c.hs`, first oracle call `c.k`, arguments `c.Q = weights_` and `c.lamHat` are computable from the run, the
+    hypothesis `hexact` is decidable on concrete inputs (see the `r2_*` instance below). -/
+theorem loop_guarantees_explicit {P : Params} (O : Oracles) (TC : Table) (h : LoopHyp P) (hc : TC.nC = P.c.length)
+    (hcc : TC.c = vec P.c) (ha : AntiSym P.ctx TC) (hO : ∀ k, ∃ i, IsMember TC (O.h k) i)
+    (hlpl : ∀ k, ∀ x ∈ (O.lp k).lam, 0 ≤ x) (b : Nat) (hb : bestIterOf (run P O) = some b) :
+    (run P O).gaps.getD b 0 = certGap P O ((run P O).certs.getD b default).1 ∧
+    (run P O).qs.getD b [] = ((run P O).certs.getD b default).1.Q ∧
+    Members TC ((run P O).certs.getD b default).1.hs ∧
+    ((∀ i < TC.nH, storedValue ((run P O).certs.getD b default).1.lamHat (O.h ((run P O).certs.getD b default).1.k)
+          ≤ classValue TC ((run P O).certs.getD b default).1.lamHat i) →
+      ∀ Q', Feasible TC Q' →
+        errQ (tableOf P.c ((run P O).certs.getD b default).1.hs) (vec ((run P O).qs.getD b []))
+          ≤ errQ TC Q' + 2 * (run P O).gaps.getD b 0 + EGGen.precision ∧
+        (0 ≤ errQ (tableOf P.c ((run P O).certs.getD b default).1.hs) (vec ((run P O).qs.getD b [])) →
+          errQ TC Q' ≤ 1 → ∀ j < P.c.length,
+          gamQ (tableOf P.c ((run P O).certs.getD b default).1.hs) (vec ((run P O).qs.getD b [])) j - vec P.c j
+            ≤ (1 + 2 * (run P O).gaps.getD b 0 + EGGen.precision) / P.B)) := by
+  have hinv : CertInv P O TC (run P O) := certInv_runN P O TC hO P.maxIter
+  have hlam : LamInv (run P O) := lamInv_runN P O h.B_pos h.e_pos (etaInit_nonneg h) hlpl P.maxIter
+  have hlt : b < (run P O).gaps.length := (bestIter_spec _ b hb).1
+  have hlen : (run P O).certs.length = (run P O).gaps.length := by rw [hinv.gaps_eq]; simp
+  have hlt' : b < (run P O).certs.length := by omega
+  have hget : (run P O).certs.getD b default = (run P O).certs[b] := by
+    rw [List.getD_eq_getElem?_getD, List.getElem?_eq_getElem hlt']; rfl
+  rw [hget]
+  obtain ⟨h1, h2, h3⟩ := hinv.cert_ok _ (List.getElem_mem hlt')
+  have h4 := hlam.certs_nonneg _ (List.getElem_mem hlt')
+  have hg : (run P O).gaps.getD b 0 = certGap P O ((run P O).certs[b]).1 := by
+    rw [← h1, hinv.gaps_eq]; simp [List.getD_eq_getElem?_getD, hlt']
+  have hq : (run P O).qs.getD b [] = ((run P O).certs[b]).1.Q := by
+    rw [← h2, hinv.qs_eq]; simp [List.getD_eq_getElem?_getD, hlt']
+  refine ⟨hg, hq, h3, ?_⟩
+  intro hexact Q' hf
+  rw [hg, hq]
+  exact evalGap_guarantees P.ctx O.h TC hc hcc ha _ h3 _ _ _ (hO _) hexact h.B_pos
+    (fun j _ => projLam_nonneg P.ctx _ h4 j) Q' hf
+
 /-- the `_PRECISION` slack is real: stored `h0` (value 1/2), oracle answers the true minimiser `h1` (value 1/2 - 5e-9);
     the improvement is below `_PRECISION`, `best_h` returns `h0`, and `eval_gap` reports gap `0` although the true
     duality gap of `(Q = h0, lambda = 0)` over the class `{h0, h1}` is `5e-9`. -/
@@ -920,5 +1003,159 @@ example : LinProg.primalObj exT 4 [1/5, 4/5, 0] = 2/5 ∧ LinProg.dualObj exT [1
   constructor <;> decide +kernel
 example : LinProg.primalFeasible exT [1, 0, 0] = false := by decide +kernel
 example : LinProg.Aub exT = [[2/5, -1/10, -1], [-3/5, -1/10, -1]] := by decide +kernel
+
+/-! ### review R2: ONE non-trivial input meeting ALL hypotheses of `loop_guarantees_explicit` (hence of `loop_guarantees`,
+`loop_guarantees_end_to_end`, `loop_certificate`, `evalGap_guarantees`, `evalGap_saddle_point`, `classGap_le_evalGap_gap`,
+`evalGap_gap_le_classGap`) at once: the class is `exT` = {h0 accurate/unfair, h1 fair}, ratio 1 (projection active,
+`AntiSym` needed), 6 iterations, a positive INCREASING stand-in for exp, oracle answers h0 for the first 8 calls and h1
+afterwards (all class members; NOT all exact), both classifiers get stored, the returned iterate is the last one with
+`weights_ = (2/3, 1/3)`, and the one call that matters (call 11, at mul = 1 of the certifying eval_gap) IS exact. -/
+section R2
+open EGLoop
+
+def r2e (x : Rat) : Rat := if 0 ≤ x then 1 + x else 1 / (1 - x)
+def r2P : EGLoop.Params := ⟨4, 2, 1/100, 6, false, true, [1/10, 1/10], r2e⟩
+def r2O : EGLoop.Oracles := ⟨fun k => if k < 8 then ⟨0, [1/2, -1/2]⟩ else ⟨1/2, [0, 0]⟩, fun _ => ⟨[], []⟩⟩
+
+theorem r2e_pos (x : Rat) : 0 < r2e x := by
+  unfold r2e
+  split
+  · linarith
+  · next h => exact div_pos one_pos (by linarith [not_le.mp h])
+
+theorem r2_loopHyp : LoopHyp r2P := ⟨by decide +kernel, r2e_pos, by decide +kernel⟩
+
+theorem r2_antiSym : AntiSym r2P.ctx exT := by
+  intro _
+  refine ⟨rfl, ?_⟩
+  intro i hi j hj
+  have hj0 : j = 0 := by
+    have : j < 1 := hj
+    omega
+  subst hj0
+  have : i = 0 ∨ i = 1 := by have : i < 2 := hi; omega
+  rcases this with rfl | rfl <;> decide +kernel
+
+theorem r2_members : ∀ k, ∃ i, IsMember exT (r2O.h k) i := by
+  intro k
+  by_cases hk : k < 8
+  · refine ⟨0, by decide, ?_⟩
+    simp only [r2O, hk, if_true]
+    refine ⟨by decide +kernel, by decide +kernel, ?_⟩
+    intro j hj
+    have : j = 0 ∨ j = 1 := by have : j < 2 := hj; omega
+    rcases this with rfl | rfl <;> decide +kernel
+  · refine ⟨1, by decide, ?_⟩
+    simp only [r2O, hk, if_false]
+    refine ⟨by decide +kernel, by decide +kernel, ?_⟩
+    intro j hj
+    have : j = 0 ∨ j = 1 := by have : j < 2 := hj; omega
+    rcases this with rfl | rfl <;> decide +kernel
+
+theorem r2_lp_nonneg : ∀ k, ∀ x ∈ (r2O.lp k).lam, 0 ≤ x := by intro k x hx; simp [r2O] at hx
+
+theorem r2_best : EGLoop.bestIterOf (EGLoop.run r2P r2O) = some 5 := by decide +kernel
+
+/-- the run is not degenerate: mixed weights over two stored classifiers, positive gap, the certifying call is call 11 -/
+example : (EGLoop.run r2P r2O).qs.getD 5 [] = [2/3, 1/3] ∧ (EGLoop.run r2P r2O).hs.length = 2 ∧
+    (EGLoop.run r2P r2O).gaps.getD 5 0 = 134261057798/194692209525 ∧
+    ((EGLoop.run r2P r2O).certs.getD 5 default).1.k = 11 ∧ (EGLoop.run r2P r2O).calls = 12 := by decide +kernel
+
+/-- the exactness hypothesis of the certifying call holds (h1 is the best response at that multiplier: 1/2 < 0.5223) -/
+theorem r2_exact : ∀ i < exT.nH,
+    EGLoop.storedValue ((EGLoop.run r2P r2O).certs.getD 5 default).1.lamHat
+        (r2O.h ((EGLoop.run r2P r2O).certs.getD 5 default).1.k)
+      ≤ EGLoop.classValue exT ((EGLoop.run r2P r2O).certs.getD 5 default).1.lamHat i := by decide +kernel
+
+/-- … and the theorem applies: error(weights_) ≤ error(exQ) + 2·best_gap_ + _PRECISION for the feasible `exQ` -/
+example : errQ (EGLoop.tableOf r2P.c ((EGLoop.run r2P r2O).certs.getD 5 default).1.hs)
+      (vec ((EGLoop.run r2P r2O).qs.getD 5 []))
+    ≤ errQ exT exQ + 2 * (EGLoop.run r2P r2O).gaps.getD 5 0 + EGGen.precision :=
+  ((loop_guarantees_explicit r2O exT r2_loopHyp rfl rfl r2_antiSym r2_members r2_lp_nonneg 5 r2_best).2.2.2
+    r2_exact exQ
+    ⟨by decide +kernel, fun i hi => by
+        have : i = 0 ∨ i = 1 := by have : i < 2 := hi; omega
+        rcases this with rfl | rfl <;> decide +kernel,
+      fun j hj => by
+        have : j = 0 ∨ j = 1 := by have : j < 2 := hj; omega
+        rcases this with rfl | rfl <;> decide +kernel⟩).1
+
+/-! the same class with the LINEAR-PROGRAMMING step switched on: the hypothesis `hlp` of `loop_Q_prob`,
+`loop_weights_prob`, `loop_weights_padded_prob` (every LP answer is a probability vector — for ALL indices, also the
+ones the run never asks for) and `hlpl` of the guarantee theorems are met; the LP iterate is chosen at t = 4, the cache
+is hit at t = 2, 3 and 5, the returned `weights_ = (1/5, 4/5)` is the exact constrained optimum with `best_gap_ = 0`, and the
+error guarantee is TIGHT up to `_PRECISION`: 2/5 ≤ 2/5 + 2·0 + 1e-8. -/
+def r2Plp : EGLoop.Params := { r2P with runLP := true }
+def r2Olp : EGLoop.Oracles := ⟨r2O.h, fun k => if k = 0 then ⟨[1], [0, 0]⟩ else ⟨[1/5, 4/5], [1, 0]⟩⟩
+
+theorem r2lp_loopHyp : LoopHyp r2Plp := ⟨by decide +kernel, r2e_pos, by decide +kernel⟩
+
+theorem r2lp_isProb : ∀ k, IsProb (r2Olp.lp k).Q := by
+  intro k
+  by_cases hk : k = 0
+  · simp only [r2Olp, hk, if_true]; exact ⟨by decide +kernel, by decide +kernel⟩
+  · simp only [r2Olp, hk, if_false]; exact ⟨by decide +kernel, by decide +kernel⟩
+
+theorem r2lp_lam_nonneg : ∀ k, ∀ x ∈ (r2Olp.lp k).lam, 0 ≤ x := by
+  intro k
+  by_cases hk : k = 0
+  · simp only [r2Olp, hk, if_true]; decide +kernel
+  · simp only [r2Olp, hk, if_false]; decide +kernel
+
+theorem r2lp_best : bestIterOf (run r2Plp r2Olp) = some 5 := by decide +kernel
+
+example : (run r2Plp r2Olp).fromLP = [false, false, false, false, true, true] ∧ (run r2Plp r2Olp).lpCalls = 2 ∧
+    (run r2Plp r2Olp).cacheHits = 3 ∧ (run r2Plp r2Olp).gaps.getD 5 0 = 0 ∧
+    weightsOf (run r2Plp r2Olp) = [1/5, 4/5] := by decide +kernel
+
+/-- `loop_weights_padded_prob` applied: the fitted `weights_` is a probability vector -/
+example : IsProb (weightsOf (run r2Plp r2Olp)) :=
+  loop_weights_padded_prob r2Olp r2lp_loopHyp r2lp_isProb (by rw [r2lp_best]; simp)
+
+theorem r2lp_exact : ∀ i < exT.nH,
+    storedValue ((run r2Plp r2Olp).certs.getD 5 default).1.lamHat (r2Olp.h ((run r2Plp r2Olp).certs.getD 5 default).1.k)
+      ≤ classValue exT ((run r2Plp r2Olp).certs.getD 5 default).1.lamHat i := by decide +kernel
+
+/-- `loop_guarantees_explicit` applied to the LP iterate: the bound is tight up to `_PRECISION` -/
+example : errQ (tableOf r2Plp.c ((run r2Plp r2Olp).certs.getD 5 default).1.hs) (vec ((run r2Plp r2Olp).qs.getD 5 [])) = 2/5 ∧
+    errQ exT exQ + 2 * (run r2Plp r2Olp).gaps.getD 5 0 + EGGen.precision = 2/5 + EGGen.precision ∧
+    errQ (tableOf r2Plp.c ((run r2Plp r2Olp).certs.getD 5 default).1.hs) (vec ((run r2Plp r2Olp).qs.getD 5 []))
+      ≤ errQ exT exQ + 2 * (run r2Plp r2Olp).gaps.getD 5 0 + EGGen.precision := by
+  refine ⟨by decide +kernel, by decide +kernel, ?_⟩
+  exact ((loop_guarantees_explicit r2Olp exT r2lp_loopHyp rfl rfl r2_antiSym r2_members r2lp_lam_nonneg 5 r2lp_best).2.2.2
+    r2lp_exact exQ
+    ⟨by decide +kernel, fun i hi => by
+        have : i = 0 ∨ i = 1 := by have : i < 2 := hi; omega
+        rcases this with rfl | rfl <;> decide +kernel,
+      fun j hj => by
+        have : j = 0 ∨ j = 1 := by have : j < 2 := hj; omega
+        rcases this with rfl | rfl <;> decide +kernel⟩).1
+
+/-- vacuity of `loop_early_stop` (and of the early-stop clause): with a budget of 8 the LP-enabled run above leaves after 6
+    iterations — the break is taken at t = 5 = _MIN_ITER with gap 0 < nu -/
+def r2Plp8 : EGLoop.Params := { r2Plp with maxIter := 8 }
+theorem r2lp8_loopHyp : LoopHyp r2Plp8 := ⟨by decide +kernel, r2e_pos, by decide +kernel⟩
+example : (run r2Plp8 r2Olp).t = 6 ∧ (run r2Plp8 r2Olp).t < r2Plp8.maxIter ∧ (run r2Plp8 r2Olp).done = true ∧
+    bestIterOf (run r2Plp8 r2Olp) = some 5 ∧ (run r2Plp8 r2Olp).gaps.getD 5 0 = 0 ∧ r2Plp8.nu = 1/100 := by decide +kernel
+example : ∃ b, bestIterOf (run r2Plp8 r2Olp) = some b ∧ (run r2Plp8 r2Olp).gaps.getD b 0 < r2Plp8.nu :=
+  (loop_early_stop r2Olp r2lp8_loopHyp (by decide +kernel)).2.2
+
+/-- vacuity of `project_raises_L` / `project_preserves_best_response`: `exT` has m = 1, uniform bound 1/10, and every
+    mixture has antisymmetric constraint values; the multiplier (3, 1) projects to (2, 0) and L rises from 1/5 to 2/5 -/
+example : exT.nC = 1 + 1 ∧ (0 : Rat) ≤ 1/10 ∧ (∀ j < 1 + 1, exT.c j = 1/10) ∧
+    (∀ j < 1, gamQ exT exQ (1 + j) = -gamQ exT exQ j) ∧ (∀ j < 1 + 1, 0 ≤ vec [3, 1] j) ∧
+    lagr exT exQ (vec [3, 1]) = 1/5 ∧ lagr exT exQ (project 1 (vec [3, 1])) = 2/5 := by
+  refine ⟨rfl, by norm_num, ?_, ?_, ?_, by decide +kernel, by decide +kernel⟩
+  · intro j hj
+    have : j = 0 ∨ j = 1 := by omega
+    rcases this with rfl | rfl <;> decide +kernel
+  · intro j hj
+    have : j = 0 := by omega
+    subst this; decide +kernel
+  · intro j hj
+    have : j = 0 ∨ j = 1 := by omega
+    rcases this with rfl | rfl <;> decide +kernel
+
+end R2
 
 end C08
